@@ -11,7 +11,7 @@
     FRESH run: the reconciles that follow its last other event, executed by the real
     reconciler on a second, new store that holds the final owner objects and the pods as
     they were created. *)
-From KaiV Require Export Run.Prelude Model.Grouper Model.GrouperSpec Model.GrouperFaults.
+From KaiV Require Export Run.Prelude Model.Grouper Model.GrouperSpec Model.GrouperFaults Model.GrouperOrder.
 Open Scope Z_scope.
 
 (** [OwnE j o]: the [j]-th owner object of the cluster is replaced by [o] (keys removed, added, changed);
@@ -517,14 +517,77 @@ Definition fidem_run_ok (k : fcase) (r : frunrec) : bool :=
 Definition fmonitor_ok (k : fcase) : bool :=
   function_ok k (flat_map (fobs_of_run k) (fk_runs k)) && forallb (fidem_run_ok k) (fk_runs k).
 
-(** * Cases of either kind *)
-Inductive tcase := CaseW (k : case) | CaseF (f : fcase).
+(** * Order worlds: ONE workload whose pods carry different queue / project labels (seeded/C18-5)
+
+    A multi-role workload (PyTorchJob Master / Worker; a StatefulSet, ReplicaSet or custom kind with a
+    hand-labelled replica): the top owner and the pods carry the queue / project label in every combination -
+    owner only, some pods only, owner and pods disagreeing, pods disagreeing among themselves. Every run is the
+    REAL reconciler on a new store reconciling every pod in one order and then once more in the same order; the
+    runs of a case differ in the order only (all permutations up to 3 pods). [oc_top] is the top owner,
+    [oc_full] tells whether the model covers the owner kind (the PyTorchJob plugin is not modelled: its
+    PodGroup is judged by the monitor and the queue rule only). *)
+Record ocase := { oc_k : case; oc_top : obj; oc_full : bool }.
+
+Definition omodel_agrees (o : ocase) : bool := if oc_full o then model_agrees (oc_k o) else true.
+
+Definition final_eqb (f : pg -> pg) (a b : list (string * pg)) : bool :=
+  list_eqb (fun x y => String.eqb (fst x) (fst y) && pg_ext_eqb (f (snd x)) (f (snd y))) a b.
+Definition no_queue (g : pg) : pg :=
+  {| pg_labels := pg_labels g; pg_annots := pg_annots g; pg_owners := pg_owners g; sp_min := sp_min g;
+     sp_queue := ""; sp_prio := sp_prio g; sp_preempt := sp_preempt g; sp_mark := sp_mark g;
+     sp_backoff := sp_backoff g; sp_subgroups := sp_subgroups g; sp_topo := sp_topo g |}.
+
+(** (O) the PodGroups at the end - name, owner reference, labels, annotations, the whole spec with queue,
+    priority class, preemptibility, minMember, sub-groups, topology: no other actor exists in these worlds -
+    and the pods' annotations are the same for every reconcile order; [f] = what is compared of a PodGroup *)
+Definition oorder_ok (f : pg -> pg) (o : ocase) : bool :=
+  match k_runs (oc_k o) with
+  | [] => false
+  | r0 :: rs => forallb (fun r => final_eqb f (r_final r0) (r_final r)
+                                   && list_eqb ostr_eqb (r_final_ann r0) (r_final_ann r)) rs
+  end.
+
+(** (Q) what CalcPodGroupQueue's documented precedence - the top owner's queue / project label first, the pod's
+    own label only where the owner has none - gives for each pod of the workload ([calc_queue] on the top owner
+    and the pods as generated; C18_owner_queue_decides: with a label on the owner it is the owner's for every
+    pod). Where all pods give the same value the rule DECIDES the queue, and every PodGroup of every run must
+    carry it; where they do not, the queue must at least be the value of one of the pods. *)
+Definition pod_queues (o : ocase) : list string :=
+  map (calc_queue (k_cfg (oc_k o)) (oc_top o)) (k_pods (oc_k o)).
+Definition decided (o : ocase) : option string :=
+  match pod_queues o with
+  | q :: r => if forallb (String.eqb q) r then Some q else None
+  | [] => None
+  end.
+Definition oqueue_ok (o : ocase) : bool :=
+  forallb (fun r => forallb (fun ng => match decided o with
+                                       | Some q => String.eqb (sp_queue (snd ng)) q
+                                       | None => existsb (String.eqb (sp_queue (snd ng))) (pod_queues o)
+                                       end) (r_final r)) (k_runs (oc_k o)).
+
+(** flag 2 (candidate finding C18-sibling-labels-first-pod-wins): the top owner carries neither label that
+    would decide and the pods disagree among themselves, and the runs differ in NOTHING but spec.queue: the
+    pod reconciled first decided (C18_first_pod_decides_without_owner_label). Everywhere else (O) holds in full,
+    the queue included. *)
+Definition first_pod_wins (o : ocase) : bool :=
+  match decided o with None => negb (oorder_ok (fun g => g) o) && oorder_ok no_queue o | Some _ => false end.
+Definition omonitor_ok (o : ocase) : bool :=
+  forallb (fun r => pure_run r && covers_all (oc_k o) r && negb (existsb (fun e => eo_err (snd e)) (r_events r)))
+          (k_runs (oc_k o))
+  && oqueue_ok o
+  && (oorder_ok (fun g => g) o || first_pod_wins o).
+Definition ocase_flags (o : ocase) : list nat := if first_pod_wins o then [2%nat] else [].
+
+(** * Cases of any kind *)
+Inductive tcase := CaseW (k : case) | CaseF (f : fcase) | CaseO (o : ocase).
 
 Definition run_flags (cs : list (nat * tcase)) : list (nat * list nat) :=
   filter (fun p => negb (Nat.eqb (List.length (snd p)) 0))
-         (map (fun c => (fst c, match snd c with CaseW k => case_flags k | CaseF _ => [] end)) cs).
+         (map (fun c => (fst c, match snd c with CaseW k => case_flags k | CaseF _ => [] | CaseO o => ocase_flags o end)) cs).
 
 Definition run_mismatches (cs : list (nat * tcase)) : list nat :=
-  failing (fun c => negb (match c with CaseW k => model_agrees k | CaseF f => fmodel_agrees f end)) cs.
+  failing (fun c => negb (match c with CaseW k => model_agrees k | CaseF f => fmodel_agrees f
+                                  | CaseO o => omodel_agrees o end)) cs.
 Definition run_monitor (cs : list (nat * tcase)) : list nat :=
-  failing (fun c => negb (match c with CaseW k => monitor_ok k | CaseF f => fmonitor_ok f end)) cs.
+  failing (fun c => negb (match c with CaseW k => monitor_ok k | CaseF f => fmonitor_ok f
+                                  | CaseO o => omonitor_ok o end)) cs.
